@@ -7,6 +7,12 @@ Tie      random grammar terms are built as REAL insights.parsr combinator object
          run by the Lean model (Drivers/C19.lean: IV.Peg.run / call).  Compared per (term, input):
          position + value or failure of `process(0, data, ctx)`, whether ctx.function_error is set, the
          tag stack left in ctx.tags, and what `Parser.__call__` reports (value / parse error / function error).
+         Operators: random Python EXPRESSIONS over leaf parsers (`a + (b + c)`, `(a | b) | c`, `a + (b | c) + d`, mixes with
+         << >> & / * % .map .sep_by .until Many Opt Wrapper Sequence([..]) Choice([..]), explicit parentheses in every
+         association; grouping taken from Python's own `ast`) are evaluated with the real operators; the built object
+         graph is read back and compared (a) with the documented term (left operand accumulates, anything else nests)
+         built through the class constructors, structure and VALUES, (b) with the model's smart constructors
+         `plus`/`alt`/`mul` (driver op `ops`: same structure, same value).
          The driver's fuel is `IV.Peg.bound rules term |input|` (Props.C19.no_divergence) and it reports the model's
          `WellFormed` for every generated grammar (must be 1: the generator's discipline is the theorem's hypothesis).
 Shipped  translate/grammars.py walks the live objects json_parser.Top and taglang.parse into IV/Gen/Grammars.lean at the
@@ -1051,6 +1057,341 @@ def tag_case(chk, text, e):
     return True
 
 
+# --------------------------------------------------------------------------- operators: every grouping builds the documented term
+
+import ast as _ast
+
+PREC = {"*": 13, "/": 13, "%": 13, "+": 12, "<<": 11, ">>": 11, "&": 10, "|": 8}
+AST_BIN = {_ast.Add: "+", _ast.BitOr: "|", _ast.LShift: "<<", _ast.RShift: ">>", _ast.BitAnd: "&", _ast.Div: "/",
+           _ast.Mult: "*"}
+OP_FNS = [["ident"], ["join"], ["len"], ["const", "k"], ["btif", ["a", "b"]], ["btif", "a"]]
+
+
+class OpGen(object):
+    """random Python EXPRESSIONS over leaf parsers L0…, spelled with the operators and explicit parentheses in every
+    association; the grouping is whatever Python's own parser says (ast), not what this generator intended"""
+
+    def __init__(self, rng):
+        self.rng = rng
+        g = Gen(rng, 0, tags=False, raises=False)
+        self.leaves = []
+        for _ in range(rng.randint(3, 5)):
+            for _ in range(30):
+                l = g.leaf()
+                if l[0] != "eof" and not (l[0] == "lit" and l[3]):
+                    break
+            self.leaves.append(l)
+        if not any(consuming(l) for l in self.leaves):
+            self.leaves.append(["chr", "a"])
+        self.cleaves = [i for i, l in enumerate(self.leaves) if consuming(l)]
+
+    def atom(self, cons):
+        r = self.rng
+        if cons or r.random() < 0.8:
+            return "L%d" % (r.choice(self.cleaves) if cons else r.randrange(len(self.leaves)))
+        return r.choice(["Opt(L%d)" % r.randrange(len(self.leaves)), "Opt(L%d, %r)" % (r.randrange(len(self.leaves)), r.choice(VALS[1:])),
+                         "Many(L%d)" % r.choice(self.cleaves), "EOF"])
+
+    def wrap(self, s, prec, need):
+        """parenthesise when Python needs it, and half of the time when it does not"""
+        if prec < need or (prec < 20 and self.rng.random() < 0.5):
+            return "(" + s + ")"
+        return s
+
+    def expr(self, d, cons=False):
+        """-> (text, precedence of its top operator); cons: must not succeed without consuming"""
+        r = self.rng
+        if d <= 0 or r.random() < 0.1:
+            return self.atom(cons), 20
+        k = r.choice(["+", "+", "+", "+", "|", "|", "|", "<<", ">>", "&", "/", "chain+", "chain|", "rnest+", "rnest|",
+                      "map", "sep_by", "until", "Many", "Opt", "Wrapper", "Sequence", "Choice", "Lift", "%"])
+        if k in ("chain+", "chain|", "rnest+", "rnest|"):
+            op = k[-1]
+            n = r.randint(3, 4)
+            parts = [self.expr(d - 1, cons and (op == "|" or i == 0)) for i in range(n)]
+            if k.startswith("chain"):          # a + b + c  /  (a + b) + c
+                s = self.wrap(parts[0][0], parts[0][1], PREC[op])
+                for t, pr in parts[1:]:
+                    s = s + " " + op + " " + self.wrap(t, pr, PREC[op] + 1)
+                    if r.random() < 0.3:
+                        s = "(" + s + ")"
+                return s, (20 if s.endswith(")") and s.startswith("(") and r.random() < 0 else PREC[op])
+            s = self.wrap(parts[-1][0], parts[-1][1], PREC[op] + 1)    # a + (b + (c + d))
+            for t, pr in reversed(parts[:-1]):
+                s = self.wrap(t, pr, PREC[op]) + " " + op + " (" + s + ")"
+            return s, PREC[op]
+        if k in PREC and k != "%":
+            if k == "|":
+                a, b = self.expr(d - 1, cons), self.expr(d - 1, cons)
+            else:
+                a, b = self.expr(d - 1, cons), self.expr(d - 1, False)
+            return self.wrap(a[0], a[1], PREC[k]) + " " + k + " " + self.wrap(b[0], b[1], PREC[k] + 1), PREC[k]
+        if k == "%":
+            a = self.expr(d - 1, cons)
+            return self.wrap(a[0], a[1], 13) + " %% 'n%d'" % r.randrange(9), 13
+        if k == "map":
+            a = self.expr(d - 1, cons)
+            return "(%s).map(F%d)" % (a[0], r.randrange(len(OP_FNS))), 20
+        if k == "sep_by" and not cons:
+            a, b = self.expr(d - 1, True), self.expr(d - 1, False)
+            return "(%s).sep_by(%s)" % (a[0], b[0]), 20
+        if k == "until" and not cons:
+            a, b = self.expr(d - 1, True), self.expr(d - 1, False)
+            return "(%s).until(%s)" % (a[0], b[0]), 20
+        if k == "Many":
+            a = self.expr(d - 1, True)
+            return ("Many(%s, lower=%d)" % (a[0], r.choice([1, 1, 2])) if cons or r.random() < 0.5 else "Many(%s)" % a[0]), 20
+        if k == "Opt" and not cons:
+            a = self.expr(d - 1, False)
+            return "Opt(%s, %r)" % (a[0], r.choice(VALS)), 20
+        if k == "Wrapper":
+            return "Wrapper(%s)" % self.expr(d - 1, cons)[0], 20
+        if k in ("Sequence", "Choice"):
+            n = r.randint(1, 3)
+            kids = [self.expr(d - 1, cons and (k == "Choice" or i == 0))[0] for i in range(n)]
+            return "%s([%s])" % (k, ", ".join(kids)), 20
+        if k == "Lift":
+            n = r.randint(1, 3)
+            s = "Lift(G%d)" % r.randrange(len(OP_FNS) + 1)
+            for i in range(n):
+                a = self.expr(d - 1, cons and i == 0)
+                s += " * " + self.wrap(a[0], a[1], 14)
+            return s, 13
+        return self.atom(cons), 20
+
+
+def op_spec(node):
+    """Python's own parse of the expression -> the operator tree (JSON-able)"""
+    if isinstance(node, _ast.Name):
+        return ["leaf", node.id]
+    if isinstance(node, _ast.BinOp):
+        if isinstance(node.op, _ast.Mod):
+            return ["%", op_spec(node.left)]
+        return ["bin", AST_BIN[type(node.op)], op_spec(node.left), op_spec(node.right)]
+    if isinstance(node, _ast.Call):
+        f = node.func
+        if isinstance(f, _ast.Attribute):
+            if f.attr == "map":
+                return [".map", node.args[0].id, op_spec(f.value)]
+            return ["." + f.attr, op_spec(f.value), op_spec(node.args[0])]
+        if f.id == "Many":
+            lower = node.keywords[0].value.value if node.keywords else 0
+            return ["Many", op_spec(node.args[0]), lower]
+        if f.id == "Opt":
+            return ["Opt", op_spec(node.args[0]), [_ast.literal_eval(node.args[1])] if len(node.args) > 1 else [None]]
+        if f.id == "Wrapper":
+            return ["Wrapper", op_spec(node.args[0])]
+        if f.id in ("Sequence", "Choice"):
+            return [f.id, [op_spec(e) for e in node.args[0].elts]]
+        if f.id == "Lift":
+            return ["Lift", node.args[0].id]
+    raise ValueError("expression form outside the generator: %s" % _ast.dump(node))
+
+
+def op_env(leaves):
+    """fresh objects for one evaluation (Sequence.__add__ / Choice.__or__ / Lift.__mul__ mutate their left operand)"""
+    env = {"Many": Many, "Opt": Opt, "Wrapper": Wrapper, "Sequence": Sequence, "Choice": Choice, "Lift": Lift, "EOF": P.EOF}
+    for i, l in enumerate(leaves):
+        env["L%d" % i] = build(l, [])
+    for i, f in enumerate(OP_FNS):
+        env["F%d" % i] = fn_map(f)
+        env["G%d" % i] = fn_lift(f)
+    env["G%d" % len(OP_FNS)] = fn_lift(["pair"])
+    return env
+
+
+def doc_term(sp, env):
+    """the term the DOCUMENTATION says the expression builds (parsr/__init__.py docstrings of __add__, __or__, Sequence,
+    Choice, Lift): `+` / `|` accumulate onto a Sequence / Choice on the LEFT only; everything else nests"""
+    k = sp[0]
+    if k == "leaf":
+        return walk(env[sp[1]], {})
+    if k == "%":
+        return doc_term(sp[1], env)
+    if k == "bin":
+        a, b = doc_term(sp[2], env), doc_term(sp[3], env)
+        op = sp[1]
+        if op == "+":
+            return ["seq", a[1] + [b]] if a[0] == "seq" else ["seq", [a, b]]
+        if op == "|":
+            return ["cho", a[1] + [b]] if a[0] == "cho" else ["cho", [a, b]]
+        if op == "*":
+            if a[0] != "lift":
+                raise ValueError("* on a non-Lift")
+            return ["lift", a[1], a[2] + [b]]
+        return [{"<<": "kl", ">>": "kr", "&": "fb", "/": "nfb"}[op], a, b]
+    if k == ".map":
+        return ["map", fn_tokens(env[sp[1]]), doc_term(sp[2], env)]
+    if k == ".sep_by":
+        a, b = doc_term(sp[1], env), doc_term(sp[2], env)
+        return ["lift", ["accum"], [["opt", a, [NO_MATCH]], ["many", ["kr", b, a], 0]]]
+    if k == ".until":
+        return ["until", doc_term(sp[1], env), doc_term(sp[2], env)]
+    if k == "Many":
+        return ["many", doc_term(sp[1], env), sp[2]]
+    if k == "Opt":
+        return ["opt", doc_term(sp[1], env), [sp[2][0]]]
+    if k == "Wrapper":
+        return ["wrap", doc_term(sp[1], env)]
+    if k == "Sequence":
+        return ["seq", [doc_term(x, env) for x in sp[1]]]
+    if k == "Choice":
+        return ["cho", [doc_term(x, env) for x in sp[1]]]
+    if k == "Lift":
+        return ["lift", fn_tokens(env[sp[1]]), []]
+    raise ValueError(k)
+
+
+def op_tokens(sp, env):
+    """the operator tree for the driver (`ops`): leaves as terms, operators as themselves"""
+    k = sp[0]
+    if k == "leaf":
+        return tokens(walk(env[sp[1]], {}))
+    if k == "%":
+        return ["%"] + op_tokens(sp[1], env)
+    if k == "bin":
+        return [sp[1]] + op_tokens(sp[2], env) + op_tokens(sp[3], env)
+    if k == ".map":
+        return [".map"] + fn_tokens(env[sp[1]]) + op_tokens(sp[2], env)
+    if k in (".sep_by", ".until"):
+        return [k] + op_tokens(sp[1], env) + op_tokens(sp[2], env)
+    if k == "Many":
+        return ["Many", str(sp[2])] + op_tokens(sp[1], env)
+    if k == "Opt":
+        return ["Opt"] + val_tokens(sp[2][0]) + op_tokens(sp[1], env)
+    if k == "Wrapper":
+        return ["Wrapper"] + op_tokens(sp[1], env)
+    if k in ("Sequence", "Choice"):
+        out = [k, str(len(sp[1]))]
+        for x in sp[1]:
+            out += op_tokens(x, env)
+        return out
+    if k == "Lift":
+        return ["Lift"] + fn_tokens(env[sp[1]])
+    raise ValueError(k)
+
+
+def construct(t, fns):
+    """walker-form term -> real objects through the CLASS CONSTRUCTORS only (no operator, no helper method)"""
+    k = t[0]
+    if k == "any":
+        return P.AnyChar
+    if k == "eof":
+        return P.EOF
+    if k == "chr":
+        return Char(t[1])
+    if k == "set":
+        return InSet(t[1])
+    if k == "str":
+        return String(t[1], t[2] or None, t[3])
+    if k == "lit":
+        return Literal(t[1], ignore_case=t[3]) if t[2] is None else Literal(t[1], value=t[2][0], ignore_case=t[3])
+    if k == "seq":
+        return Sequence([construct(c, fns) for c in t[1]])
+    if k == "cho":
+        return Choice([construct(c, fns) for c in t[1]])
+    if k == "many":
+        return Many(construct(t[1], fns), lower=t[2])
+    if k == "until":
+        return Until(construct(t[1], fns), construct(t[2], fns))
+    if k == "opt":
+        return Opt(construct(t[1], fns), t[2][0])
+    two = {"fb": FollowedBy, "nfb": NotFollowedBy, "kl": KeepLeft, "kr": KeepRight}
+    if k in two:
+        return two[k](construct(t[1], fns), construct(t[2], fns))
+    if k == "map":
+        return Map(construct(t[2], fns), fns[("F",) + tuple(t[1])])
+    if k == "lift":
+        p = Lift(getattr(Parser, "_accumulate") if t[1] == ["accum"] else fns[("G",) + tuple(t[1])])
+        p.set_children([construct(c, fns) for c in t[2]])
+        return p
+    if k == "wrap":
+        return Wrapper(construct(t[1], fns))
+    raise ValueError(k)
+
+
+def op_case(chk, expr, leaves, n_inputs, cases, impl_lines, model_lines, rng=None, inputs=None):
+    """one operator expression: build it with the operators, build the documented term with the constructors, read
+    both object graphs back, compare structure and values; queue the model line"""
+    sp = op_spec(_ast.parse(expr, mode="eval").body)
+    env = op_env(leaves)
+    real_op = eval(expr, {"__builtins__": {}}, env)
+    t_op = walk(real_op, {})
+    env2 = op_env(leaves)
+    t_doc = doc_term(sp, env2)
+    fns = {}
+    for name, f in env2.items():
+        if name[0] in "FG" and name[1:].isdigit():
+            fns[(name[0],) + tuple(fn_tokens(f))] = f
+    real_ctor = construct(t_doc, fns)
+    if tokens(walk(real_ctor, {})) != tokens(t_doc):
+        raise AssertionError("harness: constructor build does not read back as the documented term")
+    case = {"kind": "operators", "expr": expr, "leaves": leaves}
+    same = tokens(t_op) == tokens(t_doc)
+    chk.count("operators:structure-" + ("as-documented" if same else "DIFFERS"))
+    ks = set()
+    kinds(t_doc, ks)
+    for k in ks:
+        chk.count("opnode:" + k)
+    if inputs is None:
+        inputs = gen_inputs(rng, t_doc, [], n_inputs)
+    value_diff = None
+    otok = " ".join(op_tokens(sp, env2))
+    rtok = " ".join(tokens(t_op))
+    for s in inputs:
+        l_op, sum_op, cferr = run_impl(real_op, s)
+        l_ct, sum_ct, _ = run_impl(real_ctor, s)
+        c = dict(case, input=s)
+        cases.append(c)
+        impl_lines.append("same=1|" + l_op)
+        model_lines.append("ops\t%s\t%s\t%s" % (otok, rtok, enc(s)))
+        chk.case(("ops", expr, tuple(map(str, leaves)), s), nontrivial=l_op.startswith("ok"))
+        if l_op == "hang" or l_ct == "hang":
+            chk.failure("the parser built by %s did not terminate on %r" % (expr, s), c)
+            cases.pop(), impl_lines.pop(), model_lines.pop()
+            raise StopStream()
+        want = reference(t_doc, [], s)
+        if l_op != l_ct and value_diff is None:
+            value_diff = (s, l_op, l_ct)
+        elif want is not None and want != sum_op:
+            if sum_op.startswith("value") and cferr and reference(t_doc, [], s, leaky=True, swallow=True) == sum_op:
+                chk.failure("function error swallowed in %s on %r" % (expr, s), c, "function-error-swallowed")
+            elif value_diff is None:
+                value_diff = (s, sum_op, want)
+    if value_diff is not None:
+        chk.failure("the operator expression %s (leaves %s) returns %s on input %r; the documented term %s returns %s" % (
+            expr, json.dumps(leaves), value_diff[1], value_diff[0], " ".join(tokens(t_doc)), value_diff[2]),
+            dict(case, input=value_diff[0]))
+    elif not same:
+        chk.failure("the operator expression %s (leaves %s) builds the term  %s  — the documentation says  %s  "
+                    "(no value difference on the %d inputs tried)" % (expr, json.dumps(leaves), " ".join(tokens(t_op)),
+                                                                     " ".join(tokens(t_doc)), len(inputs)), dict(case, input=inputs[0]))
+
+
+def operators_stream(chk, n_exprs, n_inputs):
+    rng = chk.rng
+    cases, impl_lines, model_lines = [], [], []
+    corpus = json.load(open(os.path.join(VERIF, "corpus", "C19", "operators.json")))
+    try:
+        for e in corpus["expressions"]:
+            op_case(chk, e["expr"], e["leaves"], n_inputs, cases, impl_lines, model_lines, inputs=e["inputs"])
+        for i in range(n_exprs):
+            g = OpGen(rng)
+            expr, _ = g.expr(rng.choice([1, 2, 2, 3, 3, 4]))
+            op_case(chk, expr, g.leaves, n_inputs, cases, impl_lines, model_lines, rng=rng)
+            if i in (2, 40):
+                chk.sample({"operator-expression": expr, "leaves": g.leaves, "impl": impl_lines[-1], "model-line": model_lines[-1][:300]})
+    except StopStream:
+        chk.count("operators:stopped-after-hang")
+    if model_lines:
+        model = run_driver("C19", model_lines)
+        bad_wf = sum(1 for m in model if not m.endswith("|wf=1"))
+        if bad_wf:
+            chk.count("operators:not-WellFormed", bad_wf)
+        model = [m.rsplit("|wf=", 1)[0] for m in model]
+        chk.compare("operators-vs-model", cases, impl_lines, model)
+
+
 # --------------------------------------------------------------------------- witnesses
 
 TAG_WITNESS = {"rules": [], "top": ["seq", [["stag", ["chr", "b"]],
@@ -1091,9 +1432,9 @@ def witnesses(chk):
 def run(chk):
     rng = chk.rng
     quick = chk.tier == "quick"
-    n_grammars = 5000 if quick else 40000
+    n_grammars = 3800 if quick else 40000
     n_inputs = 14 if quick else 30
-    n_json = 4000 if quick else 60000
+    n_json = 3000 if quick else 60000
     n_tag = 1500 if quick else 20000
     chk.rule = ("grammar terms of depth <= 4-5 over the combinators (alphabet abc + 'B' and '\\\\', repetition only over "
                 "syntactically consuming sub-terms, Forward references only after consumption, 20%% of grammars with "
@@ -1172,6 +1513,9 @@ def run(chk):
     except StopStream:
         chk.count("stream1:stopped-after-hang")
     flush()
+
+    # ---- stream 1b: the grammar-building operators, every grouping (Props.C19 plus_* / alt_* theorems)
+    operators_stream(chk, 1200 if quick else 15000, 6 if quick else 10)
 
     # ---- stream 2: JSON grammar vs json.loads on the documented subset  (+ the TRANSLATED grammar in the model)
     jdocs = []
@@ -1303,6 +1647,22 @@ def replay(data):
         bad = want is not None and want != summary
         if m != line:
             print("model and implementation DISAGREE")
+    elif kind == "operators":
+        class _C(object):
+            def __init__(self):
+                self.failures, self.dist = [], {}
+            def count(self, *a): pass
+            def case(self, *a, **k): pass
+            def failure(self, desc, case, finding=None): self.failures.append(desc)
+        cc = _C()
+        cs, il, ml = [], [], []
+        op_case(cc, c["expr"], c["leaves"], 0, cs, il, ml, inputs=[c["input"]])
+        m = run_driver("C19", ml)[0].rsplit("|wf=", 1)[0]
+        print("operator-built object:", il[0])
+        print("model (plus/alt/mul) :", m, "" if m == il[0] else "  <-- DISAGREE (same=0: the built structure is not the model's term)")
+        for d in cc.failures:
+            print(d)
+        bad = bool(cc.failures)
     elif kind == "json":
         a, b = json_impl(c["doc"]), json_ref(c["doc"])
         print("json grammar:", a, " json.loads:", b)
